@@ -1,8 +1,8 @@
 """C01 — every point's fuzzy neighbourhood is calibrated and locally connected."""
 import math
 import numpy as np
-from vp.coqrun import fl, zl, flist, zlist, clist, parse_zlist
-from vp import srcparams
+from vp.coqrun import fl, zl, flist, zlist, clist, parse_zlist, ALLOWED_AXIOMS
+from vp import srcparams, link
 import umap.umap_ as U
 
 SATOL = 2e-3      # strength tolerance (float32 search vs binary64 search stop at different points of the tolerance band)
@@ -158,6 +158,20 @@ def row_term(i, D, idx, sig, rho, vals, lc, tol):
 
 def run(ctx):
     ctx.check_proofs(["prop/P_C01.v"])
+    # translation tie: Gallina regenerated from the current umap/umap_.py; link theorems (coq/link/L_knn.v) re-checked:
+    # translated compute_membership_strengths (return_dists=False, bipartite=False) = mem/memberships over every Num;
+    # translated smooth_knn_dist = smooth_knn/smooth_row over R for finite tables (rows with +inf entries: correspondence only)
+    lres = link.check(ctx, "umap_knn", {"compute_membership_strengths": "src_compute_membership_strengths_eq",
+                                        "smooth_knn_dist": "src_smooth_knn_dist_eq"})
+    # the position-by-position / per-row corollaries of the same file are obligations as well
+    for thm in ("src_compute_membership_strengths_nth", "src_compute_membership_strengths_memberships", "src_smooth_knn_dist_row"):
+        ob = "link:umap_knn:" + thm
+        ctx.obligations.append(ob)
+        bad = [a for a in lres.axioms.get(thm, []) if a not in ALLOWED_AXIOMS and not ctx._primitive(a)]
+        if lres.theorems.get(thm) is True and not bad:
+            ctx.discharged.append(ob)
+        else:
+            ctx.broken.append("link[umap_knn]: corollary %s %s" % (thm, ("uses axioms %s" % bad) if bad else (lres.theorems.get(thm) or "is missing")))
     P = srcparams.module_constants("umap/umap_.py", {"SMOOTH_K_TOLERANCE", "MIN_K_DIST_SCALE"})
     dflt = srcparams.func_defaults("umap/umap_.py", "smooth_knn_dist")
     if set(P) != {"SMOOTH_K_TOLERANCE", "MIN_K_DIST_SCALE"} or "n_iter" not in dflt:
@@ -224,7 +238,10 @@ def run(ctx):
                 field = {1: "rho", 2: "sigma finite/positive", 3: "strengths", 4: "floor"}.get(code % 10, "?")
                 ctx.diff(cases[s + off], "row %d: %s" % (code // 10, field))
     return ctx.finish(RULE, assumptions=["float32 arithmetic / fastmath of the compiled kernel is observed, not modelled (strength tolerance %g)" % SATOL,
-                                           "rows whose floor(lc)-th non-zero entry is infinite (rho = inf) are not generated"])
+                                           "rows whose floor(lc)-th non-zero entry is infinite (rho = inf) are not generated",
+                                           "link theorem for smooth_knn_dist: finite tables only (NPY_INFINITY is the generated function's argument pinf > 2^n_iter); "
+                                           "rows with +inf entries are tied to the model by the per-run correspondence only",
+                                           "link theorem for compute_membership_strengths: return_dists=False, bipartite=False"])
 
 
 def replay(rep):
